@@ -9,3 +9,13 @@ package backend
 //@ extern (LogFunc) Warn
 //@ extern (LogFunc) Warnf
 //@ extern (LogFunc) MultiWarn
+
+// Assumed contracts of the Backend interface (implementations are the Go backends and user code): they answer
+// with a response object and do not touch the generator's own state.
+//@ extern (Backend) Name
+//@ extern (Backend) Lang
+//@ extern (Backend) GetPlugin
+//@ extern (Backend) Generate
+//@   ensures result != nil
+//@   ensures forall a int :: 0 <= a && a < len(result.Contents) ==> result.Contents[a] != nil && fresh(result.Contents[a])
+//@   ensures forall a, b int :: 0 <= a && a < b && b < len(result.Contents) ==> result.Contents[a] != result.Contents[b]
